@@ -813,8 +813,12 @@ func (ld *Loaded) typesCoveredScan(fd *FieldDecl) *FuncResult {
 					}
 				}
 			}
+			// ... and only if code under contract creates values of the type (a new codec or helper
+			// type with its own constructor that nothing existing calls is not reachable)
 			if len(reach) > 0 {
-				bad = append(bad, fmt.Sprintf("type %s (methods %s) has no 'methods' clause: %s", n, strings.Join(sets[n], " "), strings.Join(reach, "; ")))
+				if where := ld.createdInContractedCode(fd.Pkg + "." + n); where != "" {
+					bad = append(bad, fmt.Sprintf("type %s (methods %s) has no 'methods' clause: %s; values of it are created in %s", n, strings.Join(sets[n], " "), strings.Join(reach, "; "), where))
+				}
 			}
 		}
 	}
@@ -929,6 +933,57 @@ func (ld *Loaded) methodReachable(named *types.Named, m string) string {
 			for k := 0; k < ms.Len(); k++ {
 				if ms.At(k).Obj().Name() == m {
 					return "it shadows the method promoted from the embedded field " + st.Field(i).Name()
+				}
+			}
+		}
+	}
+	return ""
+}
+
+// createdInContractedCode: a function under contract (or a helper without contract it calls) that
+// allocates the named type or converts a value of it to an interface; "" if there is none.
+func (ld *Loaded) createdInContractedCode(tname string) string {
+	var fns []*ssa.Function
+	var keys []string
+	for k, c := range ld.cs.Funcs {
+		if !c.Assumed && !c.Iface {
+			keys = append(keys, k)
+		}
+	}
+	sort.Strings(keys)
+	for _, k := range keys {
+		fns = append(fns, ld.fnByKey[k]...)
+	}
+	is := func(t types.Type) bool {
+		if pt, ok := t.Underlying().(*types.Pointer); ok {
+			t = pt.Elem()
+		}
+		return types.TypeString(t, nil) == tname
+	}
+	for _, fn := range ld.withHelpers(fns) {
+		// the type's own methods and functions do not count as "existing code"
+		if fn.Signature.Recv() != nil && is(fn.Signature.Recv().Type()) {
+			continue
+		}
+		for _, b := range fn.Blocks {
+			for _, in := range b.Instrs {
+				switch v := in.(type) {
+				case *ssa.Alloc:
+					if is(v.Type()) {
+						return fn.RelString(typesPkgOf(fn))
+					}
+				case *ssa.MakeInterface:
+					if is(v.X.Type()) {
+						return fn.RelString(typesPkgOf(fn))
+					}
+				case *ssa.ChangeType:
+					if is(v.Type()) {
+						return fn.RelString(typesPkgOf(fn))
+					}
+				case *ssa.Convert:
+					if is(v.Type()) {
+						return fn.RelString(typesPkgOf(fn))
+					}
 				}
 			}
 		}
